@@ -63,11 +63,26 @@ def scenarios(c):
                     steps.append({"api": "legacyname", "op": "write", "var": var, "val": rng.choice(VALS)})
                     steps.append({"api": "legacyname", "op": "read", "var": var, "val": "-", "stored": {"attrs": a, "val": rng.choice(VALS)}})
                     steps.append({"api": "legacyname", "op": "read", "var": var, "val": "-"})
+            if api == "legacy":
+                # typed accessors of the legacy package: stored mask equal / superset / subset / disjoint / zero in front of a database value
+                for (n, g) in (("PK", "global"), ("KEK", "global"), ("db", "sec"), ("dbx", "sec")):
+                    a = [NV, BS, RT, AT]
+                    var = {"name": n, "guid": g, "attrs": a}
+                    for kind, sa in stored_variants(rng, a):
+                        steps.append({"api": "legacytyped", "op": "read", "var": var, "val": "-", "stored": {"attrs": sa, "val": rng.choice(["d1", "d3", "dc"])}})
+                    steps.append({"api": "legacytyped", "op": "read", "var": var, "val": "-"})
             # split into sequences that share one wrapper object: long shuffled runs so that state kept by the wrapper shows
             # every fifth read is followed at once by the same read of the untouched variable (a second look must see what the first saw)
             units = []
             for k, st in enumerate(steps):
                 units.append([st, dict(st, again=True)] if st["op"] != "write" and k % 5 == 0 else [st])
+            # every ninth write meets a file system that fails its write with an error that looks transient (EINTR / EAGAIN): still one write, and an error
+            nw = 0
+            for u in units:
+                if u[0]["op"] == "write" and u[0]["api"] in ("obj", "legacy"):
+                    nw += 1
+                    if nw % 9 == 0:
+                        u[0] = dict(u[0], wfault=("eintr", "eagain", "error")[(nw // 9) % 3])
             rng.shuffle(units)
             steps = [st for u in units for st in u]
             run = 60 if c.quick else 200
